@@ -208,6 +208,84 @@ def thorough_recheck(mod, report):
     return p.returncode == 0
 
 
+
+def run_search(mod, ctx2, budget, is_new=lambda f: True):
+    """mod.run(ctx2) in a forked child (own process group) for at most `budget` seconds; ctx2 in the parent receives the
+    failures as the child finds them, and the counters when it finishes.  Returns done | timeout | infra:<msg> | error:<repr>."""
+    import multiprocessing as mp
+    import signal
+    mpc = mp.get_context("fork")
+    rx, tx = mpc.Pipe(duplex=False)
+
+    def target():
+        try:
+            os.setsid()
+        except OSError:
+            pass
+        orig_fail = ctx2.fail
+
+        def fail(signature, case, detail):
+            orig_fail(signature, case, detail)
+            try:
+                tx.send(("fail", ctx2.failures[-1]))
+            except Exception:
+                pass
+        ctx2.fail = fail
+        try:
+            mod.run(ctx2)
+            st = "done"
+        except InfraError as e:
+            st = "infra:%s" % e
+        except BaseException as e:
+            st = "error:%r" % (e,)
+        try:
+            tx.send(("end", st, ctx2.disagreements[:5], ctx2.evaluations, list(ctx2.nontrivial), ctx2.validated,
+                     ctx2.disagreements_checked, ctx2.hist))
+        except Exception:
+            pass
+        os._exit(0)
+
+    p = mpc.Process(target=target)
+    p.start()
+    tx.close()
+    deadline = time.time() + budget
+    status = "timeout"
+    try:
+        while True:
+            left = deadline - time.time()
+            if left <= 0 or not rx.poll(min(left, 5.0)):
+                if left <= 0:
+                    break
+                if not p.is_alive() and not rx.poll(0):
+                    status = "error:search process died"
+                    break
+                continue
+            try:
+                msg = rx.recv()
+            except EOFError:
+                status = "error:search process died"
+                break
+            if msg[0] == "fail":
+                ctx2.failures.append(msg[1])
+                if is_new(msg[1]):          # one failing input that is not a listed finding is all the search is for
+                    status = "done"
+                    break
+            else:
+                _, status, dis, ev, nt, val, dch, hist = msg
+                ctx2.disagreements += dis
+                ctx2.evaluations, ctx2.validated, ctx2.disagreements_checked = ev, val, dch
+                ctx2.nontrivial |= set(nt)
+                ctx2.hist = hist
+                break
+    finally:
+        try:
+            os.killpg(p.pid, signal.SIGKILL)
+        except Exception:
+            pass
+        p.join(5)
+    return status
+
+
 def write_replay(prop_id, seed, payload, tag=""):
     os.makedirs(os.path.join(VERIF, "replays"), exist_ok=True)
     rel = "replays/%s-%s%s.json" % (prop_id, seed, tag)
@@ -232,6 +310,7 @@ def write_evidence(mod, ctx, report, tier, seed, t0, violations, extra_assumptio
         "translator": {"translated": report.get("translated", []), "regenerated_this_run": report.get("regenerated", []),
                        "errors": report.get("translator_errors", [])},
         "source_pins": report.get("source_pins", {}),
+        "search_stopped_after_s": report.get("search_stopped_after_s"), "search_error": report.get("search_error"),
         "build_ok": report.get("build_ok"), "build_s": report.get("build_s"),
         "audit_problems": report.get("audit_problems", []),
         "evaluations": ctx.evaluations,
@@ -319,10 +398,16 @@ def main():
             ctx2 = Ctx(mod.ID, a.tier, seed + 7919, factor=10, search=True)
             if not report.get("build_ok"):
                 ctx2.model_unavailable = True
-            try:
-                mod.run(ctx2)
-            except InfraError:
-                raise
+            # the search runs in a forked child with a wall-clock budget (a check on a changed tree must still answer in
+            # minutes); failures are reported to the parent as they are found, so what it found until then counts
+            budget = int(os.environ.get("VERIF_SEARCH_BUDGET_S", "300" if a.tier == "quick" else "900"))
+            status = run_search(mod, ctx2, budget, lambda f: f["signature"] not in known_sigs)
+            if status == "timeout":
+                report["search_stopped_after_s"] = budget
+            elif status.startswith("infra:"):
+                raise InfraError(status[6:])
+            elif status != "done":
+                report["search_error"] = status[:300]
             bad2 = unlisted(ctx2)
             ctx.evaluations += ctx2.evaluations
             ctx.nontrivial |= ctx2.nontrivial
